@@ -41,7 +41,7 @@ def generate(ctx):
             d["dtype"] = "float32"
         else:
             d.update(trainer=tr.TRAINERS[(i // len(KINDS)) % len(tr.TRAINERS)], conn=rng.choice(["dense", "direct", "lateral", "conv"]),
-                     delay=rng.choice([None, 2]), T=rng.randint(5, 10))
+                     delay=rng.choice([None, 2]), T=rng.randint(5, 10), signs=rng.randrange(4), trace_mode=rng.choice(["cumulative", "nearest"]))
             d["dtype"] = "float32"
         yield d
 
@@ -231,10 +231,13 @@ def _layer(ctx, desc):
 def _trainer(ctx, desc):
     g = torch.Generator().manual_seed(desc["seed"])
     B = desc["B"]
+    from rv.monitors import c08
+    a, b = c08.SIGNS[desc.get("signs", 0)]
+    hyper = {"lr_a": a, "lr_b": b, "trace_mode": desc.get("trace_mode", "cumulative")}
     hb = tr.Harness(desc["trainer"], desc["conn"], dt=desc["dt"], B=B, delay_steps=desc["delay"], seed=desc["seed"],
-                    batch_reduction=torch.sum)
+                    batch_reduction=torch.sum, hyper=hyper)
     hs = [tr.Harness(desc["trainer"], desc["conn"], dt=desc["dt"], B=1, delay_steps=desc["delay"], seed=desc["seed"],
-                     batch_reduction=torch.sum) for _ in range(B)]
+                     batch_reduction=torch.sum, hyper=hyper) for _ in range(B)]
     for h in hs:
         fac.copy_params(hb.conn, h.conn)
     for t in range(desc["T"]):
@@ -244,7 +247,7 @@ def _trainer(ctx, desc):
         reward = torch.randn(B, generator=g)
         pb_, nb_ = hb.step_parts(pre, post, reward)
         ps = [h.step_parts(pre[b:b + 1], post[b:b + 1], reward[b:b + 1]) for b, h in enumerate(hs)]
-        ctx.case(f"trainer/{desc['trainer']}/{desc['conn']}/B{B}/delay{desc['delay']}")
+        ctx.case(f"trainer/{desc['trainer']}/{desc['conn']}/B{B}/delay{desc['delay']}/signs{desc.get('signs', 0)}")
         ctx.count("steps_checked")
         ctx.count("trainer_steps_checked")
         for name, whole, parts in (("potentiation", pb_, [p[0] for p in ps]), ("depression", nb_, [p[1] for p in ps])):
